@@ -27,22 +27,48 @@ var f1Tok = []string{
 	"DO", "FOR", "WHILE", "REPEAT", "IF", "ELSE", "END",
 }
 
+// f1TokX is the single-variable sub-alphabet used for length 5 (thorough).
+var f1TokX = []string{"Lx", "Ux", "Sx", "Ix", "Gx", "Gi", "Cx", "E", "CALL", "DO", "FOR", "WHILE", "REPEAT", "IF", "ELSE", "END"}
+
 func f1(th bool) []Fam {
-	maxLen := 4
-	if th {
-		maxLen = 5
-	}
 	a := len(f1Tok)
-	return []Fam{{
+	fams := []Fam{{
 		Name: "F1-scope-closure",
-		Size: seqSize(a, maxLen),
+		Size: seqSize(a, 4),
 		At: func(i uint64) *prog.Prog {
-			return f1Build(seqIndex(i, a, maxLen))
+			return f1Build(tokNames(f1Tok, seqIndex(i, a, 4)))
 		},
 	}}
+	if th {
+		ax := len(f1TokX)
+		fams = append(fams, Fam{
+			Name: "F1-scope-closure-len5",
+			Size: pow(ax, 5),
+			At: func(i uint64) *prog.Prog {
+				toks := make([]int, 5)
+				for k := 4; k >= 0; k-- {
+					toks[k] = int(i % uint64(ax))
+					i /= uint64(ax)
+				}
+				return f1Build(tokNames(f1TokX, toks))
+			},
+		})
+	}
+	return fams
 }
 
-func f1Build(toks []int) *prog.Prog {
+func tokNames(alphabet []string, toks []int) []string {
+	if toks == nil {
+		return nil
+	}
+	out := make([]string, len(toks))
+	for k, t := range toks {
+		out[k] = alphabet[t]
+	}
+	return out
+}
+
+func f1Build(toks []string) *prog.Prog {
 	if toks == nil {
 		return nil
 	}
@@ -50,8 +76,7 @@ func f1Build(toks []int) *prog.Prog {
 	st := newBlockStack()
 	st.add(b.Local1("x", b.i(1)), b.Set("y", b.i(2)), b.Set("fs", b.List()))
 	names := make([]string, len(toks))
-	for pos, t := range toks {
-		tok := f1Tok[t]
+	for pos, tok := range toks {
 		names[pos] = tok
 		v := ""
 		if len(tok) == 2 {
